@@ -18,6 +18,25 @@ use std::cell::RefCell;
 use std::rc::Rc;
 
 fn random_frame(rng: &mut Rng) -> Vec<u8> {
+    if rng.chance(1, 12) {
+        // SD2 framing of a telegram that the crate itself would send as SD1 / SD3
+        let n = *rng.pick(&[0usize, 8]);
+        let fc = loop {
+            let b = rng.u8();
+            if RFc::from_byte(b).is_some() {
+                break b;
+            }
+        };
+        let mut body = vec![rng.u8() & 0x7f, rng.u8() & 0x7f, fc];
+        body.extend(rng.bytes(n));
+        let le = body.len() as u8;
+        let fcs = body.iter().fold(0u8, |a, b| a.wrapping_add(*b));
+        let mut f = vec![rc::SD2, le, le, rc::SD2];
+        f.extend_from_slice(&body);
+        f.push(fcs);
+        f.push(rc::ED);
+        return f;
+    }
     match rng.usize(10) {
         0 => vec![rc::SC],
         1 | 2 => vec![rc::SD4, rng.u8() & 0x7f, rng.u8() & 0x7f],
